@@ -109,6 +109,8 @@ def routes(ctx, r, spec):
         add('stored-zeros-csc', lambda: Table(with_zeros(D, 'csc', r), o, s,
                                               **kw()))
     add('unsorted-csr', lambda: Table(unsorted_csr(D), o, s, **kw()))
+    for lay in ('csr-duplicate-entries', 'csc-duplicate-entries'):
+        add(lay, lambda lay=lay: gen.apply_layout(ctx.biom, spec, lay, r))
 
     def base():
         return Table(D.copy(), o, s, **kw())
